@@ -12,8 +12,22 @@ package frugal
 //@   ensures err == nil ==> result != nil && typeis(result, "*lib.v0ProtocolMarshaler")
 //@   ensures err != nil ==> result == nil
 
+// The documented v0 layout, for an arbitrary sequence of hn pairs (hk(j), hv(j)) with pairwise different
+// names laid back to back from index a to index b of a byte slice: 4-byte big-endian name length, the
+// name, 4-byte big-endian value length, the value. ho(j) is where pair j starts. hk, hv, ho, hn are
+// uninterpreted, so a contract that mentions laid() holds for every such sequence.
+//@ specfn hk(Int) Str
+//@ specfn hv(Int) Str
+//@ specfn ho(Int) Int
+//@ specfn hn() Int
+//@ pred laid(s, a, b) = hn() >= 0 && ho(0) == a && ho(hn()) == b && forall(j, 0, hn() + 1, a <= ho(j) && ho(j) <= b) && forall(j, 0, hn(), len(hk(j)) >= 0 && len(hv(j)) >= 0 && ho(j+1) == ho(j) + 8 + len(hk(j)) + len(hv(j)) && u32be(s, ho(j)) == len(hk(j)) && bstr(s, ho(j) + 4, len(hk(j))) == hk(j) && u32be(s, ho(j) + 4 + len(hk(j))) == len(hv(j)) && bstr(s, ho(j) + 8 + len(hk(j)), len(hv(j))) == hv(j)) && forall(j, 0, hn(), forall(l, 0, hn(), j != l ==> hk(j) != hk(l)))
+
+// Decoding: whatever sequence of pairs is laid out in [start, end) is accepted, and every pair of it is
+// in the result with its value. (With hsum(result) <= end - start, below, nothing else is.)
 //@ func lib.v0ProtocolMarshaler.readPairs
 //@   requires 0 <= start && end <= len(buff)
+//@   ensures laid(buff, start, end) ==> err == nil && forall(j, 0, hn(), has(result, hk(j)) && result[hk(j)] == hv(j))
+//@   loop 0 invariant laid(buff, start0, end) ==> 0 <= iter0 && iter0 <= hn() && i == ho(iter0) && forall(j, 0, iter0, has(headers, hk(j)) && headers[hk(j)] == hv(j))
 //@   ensures err == nil ==> result != nil && fresh(result)
 //@   ensures err != nil ==> result == nil
 //@   ensures err == nil && start <= end ==> hsum(result) <= end - start      // distinct names never take more room than the bytes read
@@ -409,3 +423,45 @@ package frugal
 //@   same_as lib.FContextImpl.AddResponseHeader
 //@ iface lib.FContext.CorrelationID
 //@   same_as lib.FContextImpl.CorrelationID
+
+// ---- middleware (C16) -----------------------------------------------------------------------------------
+// mwapp(m, h) is the handler obtained by applying middleware m to handler h. mwfold(a, o, n, b) applies the
+// first n middleware of the slice (backing array a, offset o) to the base handler b, the later-listed
+// one outermost: mwfold(.., 0, b) = b, mwfold(.., n+1, b) = mwapp(a[o+n], mwfold(.., n, b)).
+
+//@ specfn mwapp(Int, Int) Int
+//@ specfn mwfold((Array Int Int), Int, Int, Int) Int
+//@ smt (assert (forall ((a (Array Int Int)) (o Int) (b Int)) (! (= (sf!mwfold a o 0 b) b) :pattern ((sf!mwfold a o 0 b)))))
+//@ smt (assert (forall ((a (Array Int Int)) (o Int) (n Int) (b Int)) (! (=> (>= n 0) (= (sf!mwfold a o (+ n 1) b) (sf!mwapp (select a (+ o n)) (sf!mwfold a o n b)))) :pattern ((sf!mwfold a o (+ n 1) b)))))
+
+// Applying a middleware yields mwapp of it and the wrapped handler; it does not touch the runtime's state.
+//@ func lib.ServiceMiddleware
+//@   functype
+//@   ensures result == mwapp(self, arg0)
+
+//@ func lib.composeMiddleware
+//@   ensures ncalls("lib.newInvocationHandler") == 1
+//@   ensures result == mwfold(elems(middleware), off(middleware), len(middleware), callret("lib.newInvocationHandler", 0, 0))
+//@   loop 0 invariant 0 - 1 <= rangeindex && rangeindex + 1 <= len(middleware) && middleware == middleware0
+//@   loop 0 invariant handler == mwfold(elems(middleware), off(middleware), rangeindex + 1, callret("lib.newInvocationHandler", 0, 0))
+
+// Adding a middleware wraps the current handler once more (outermost).
+//@ func lib.Method.AddMiddleware
+//@   ensures m.handler == mwapp(middleware, old(m.handler))
+//@   ensures m.proxiedStruct == old(m.proxiedStruct)
+//@   modifies m.handler
+
+//@ func lib.FBaseProcessorFunction.AddMiddleware
+//@   ensures f.handler.handler == mwapp(middleware, old(f.handler.handler)) && f.handler == old(f.handler)
+//@   modifies f.handler.handler
+
+// Providers hand out a copy of their middleware list: same length, same elements, fresh backing array.
+//@ func lib.FScopeProvider.GetMiddleware
+//@   ensures len(result) == len(p.middleware) && fresh(result)
+//@   ensures forall(i, 0, len(result), result[i] == p.middleware[i])
+//@   modifies alloc
+
+//@ func lib.FServiceProvider.GetMiddleware
+//@   ensures len(result) == len(f.middleware) && fresh(result)
+//@   ensures forall(i, 0, len(result), result[i] == f.middleware[i])
+//@   modifies alloc
